@@ -207,7 +207,7 @@ Definition walk_fuel (n : node) : nat := (2 * height n + 2)%nat.
 (* ------------------------------------------------------------------ *)
 
 (* a parsed file: ast.SoyFileNode *)
-Record sfile := { sf_name : bstr; sf_text : bstr; sf_body : list node }.
+Record sfile := { sfile_name : bstr; sfile_text : bstr; sfile_body : list node }.
 
 Inductive add_err :=
 | AENamespaceExpected (found : node)          (* "expected namespace, found %v" *)
@@ -324,14 +324,14 @@ Fixpoint add_units (fname ftext : bstr) (us : list (add_err + tmpl_unit)) (r : r
   end.
 
 Definition registry_add (r : creg) (f : sfile) : add_err + creg :=
-  match find_namespace (sf_body f) with
+  match find_namespace (sfile_body f) with
   | inl e => inl e
   | inr (nsname, nsae) =>
-      match add_units (sf_name f) (sf_text f) (file_units (sf_name f) nsname nsae None (sf_body f)) (cr_reg r) with
+      match add_units (sfile_name f) (sfile_text f) (file_units (sfile_name f) nsname nsae None (sfile_body f)) (cr_reg r) with
       | inl e => inl e
       | inr reg' =>
-          inr {| cr_soyfiles := cr_soyfiles r ++ [{| sf_name := sf_name f; sf_text := sf_text f;
-                                                      sf_body := processed_body (sf_name f) nsname nsae None (sf_body f) |}];
+          inr {| cr_soyfiles := cr_soyfiles r ++ [{| sfile_name := sfile_name f; sfile_text := sfile_text f;
+                                                      sfile_body := processed_body (sfile_name f) nsname nsae None (sfile_body f) |}];
                  cr_reg := reg' |}
       end
   end.
@@ -345,14 +345,14 @@ Fixpoint add_units_pinned (ftext : bstr) (us : list (add_err + tmpl_unit)) (r : 
   | inr u :: rest => add_units_pinned ftext rest (reg_append r (tu_template u) ftext)
   end.
 Definition registry_add_pinned (r : creg) (f : sfile) : add_err + creg :=
-  match find_namespace (sf_body f) with
+  match find_namespace (sfile_body f) with
   | inl e => inl e
   | inr (nsname, nsae) =>
-      match add_units_pinned (sf_text f) (file_units (sf_name f) nsname nsae None (sf_body f)) (cr_reg r) with
+      match add_units_pinned (sfile_text f) (file_units (sfile_name f) nsname nsae None (sfile_body f)) (cr_reg r) with
       | inl e => inl e
       | inr reg' =>
-          inr {| cr_soyfiles := cr_soyfiles r ++ [{| sf_name := sf_name f; sf_text := sf_text f;
-                                                      sf_body := processed_body (sf_name f) nsname nsae None (sf_body f) |}];
+          inr {| cr_soyfiles := cr_soyfiles r ++ [{| sfile_name := sfile_name f; sfile_text := sfile_text f;
+                                                      sfile_body := processed_body (sfile_name f) nsname nsae None (sfile_body f) |}];
                  cr_reg := reg' |}
       end
   end.
@@ -379,20 +379,20 @@ Inductive check_err :=
 | CKLoopFunc (fname key : bstr)                 (* function %s: $%s is not the variable of an enclosing loop (commit 3fac11a) *)
 | CKOutOfFuel.                                  (* the model's recursion budget (shown sufficient: never returned by check_template) *)
 
-Record binding := { b_name : bstr; b_let : bool; b_used : bool }.
-(* tc.vars with the innermost binding FIRST (Go appends; the model conses), tc.usedKeys *)
-Record tcs := { tc_vars : list binding; tc_used : list bstr }.
+Record vbinding := { vb_name : bstr; vb_let : bool; vb_used : bool }.
+(* tc.vars with the innermost vbinding FIRST (Go appends; the model conses), tc.usedKeys *)
+Record tcs := { tc_vars : list vbinding; tc_used : list bstr }.
 
-Definition s_ij : bstr := Eval vm_compute in b "ij".
-Definition s_is_first : bstr := Eval vm_compute in b "isFirst".
-Definition s_is_last : bstr := Eval vm_compute in b "isLast".
-Definition s_index : bstr := Eval vm_compute in b "index".
+Definition k_ij : bstr := Eval vm_compute in b "ij".
+Definition k_is_first : bstr := Eval vm_compute in b "isFirst".
+Definition k_is_last : bstr := Eval vm_compute in b "isLast".
+Definition k_index : bstr := Eval vm_compute in b "index".
 
-Fixpoint mark_used (key : bstr) (vars : list binding) : option (list binding) :=
+Fixpoint mark_used (key : bstr) (vars : list vbinding) : option (list vbinding) :=
   match vars with
   | [] => None
   | v :: r =>
-      if bstr_eqb (b_name v) key then Some ({| b_name := b_name v; b_let := b_let v; b_used := true |} :: r)
+      if bstr_eqb (vb_name v) key then Some ({| vb_name := vb_name v; vb_let := vb_let v; vb_used := true |} :: r)
       else match mark_used key r with Some r' => Some (v :: r') | None => None end
   end.
 
@@ -402,12 +402,12 @@ Section Checker.
   Variable params : list bstr.                   (* tc.params *)
 
   Definition visit_key (st : tcs) (key : bstr) : check_err + tcs :=
-    if bstr_eqb key s_ij then inr st
+    if bstr_eqb key k_ij then inr st
     else match mark_used key (tc_vars st) with
          | Some vars' => inr {| tc_vars := vars'; tc_used := tc_used st |}
          | None =>
              if mem_s key params then inr {| tc_vars := tc_vars st; tc_used := tc_used st ++ [key] |}
-             else inl (CKDataRefNotFound key (rev (map b_name (tc_vars st))))
+             else inl (CKDataRefNotFound key (rev (map vb_name (tc_vars st))))
          end.
 
   Fixpoint call_param_keys (ps : list node) : option (list bstr) :=
@@ -447,10 +447,10 @@ Section Checker.
 
   (* checkLoopFunc: index, isFirst and isLast want the variable of an enclosing loop *)
   Definition check_loop_func (st : tcs) (fname : bstr) (args : list node) : option check_err :=
-    if bstr_eqb fname s_index || bstr_eqb fname s_is_first || bstr_eqb fname s_is_last then
+    if bstr_eqb fname k_index || bstr_eqb fname k_is_first || bstr_eqb fname k_is_last then
       match args with
       | NDataRef _ key _ :: _ =>
-          if existsb (fun v => negb (b_let v) && bstr_eqb (b_name v) key) (tc_vars st) then None
+          if existsb (fun v => negb (vb_let v) && bstr_eqb (vb_name v) key) (tc_vars st) then None
           else Some (CKLoopFunc fname key)
       | _ => None
       end
@@ -461,7 +461,7 @@ Section Checker.
   Definition pop_block (initial : nat) (st : tcs) : check_err + tcs :=
     let n := (length (tc_vars st) - initial)%nat in
     let block := rev (firstn n (tc_vars st)) in
-    match map b_name (filter (fun v => b_let v && negb (b_used v)) block) with
+    match map vb_name (filter (fun v => vb_let v && negb (vb_used v)) block) with
     | (_ :: _) as unused => inl (CKUnusedLets unused)
     | [] => inr {| tc_vars := skipn n (tc_vars st); tc_used := tc_used st |}
     end.
@@ -480,13 +480,13 @@ Section Checker.
     end.
 
   Definition push_var (st : tcs) (name : bstr) (is_let : bool) : tcs :=
-    {| tc_vars := {| b_name := name; b_let := is_let; b_used := false |} :: tc_vars st; tc_used := tc_used st |}.
+    {| tc_vars := {| vb_name := name; vb_let := is_let; vb_used := false |} :: tc_vars st; tc_used := tc_used st |}.
 
   (* one level of tc.checkTemplate; [w] is the recursive call *)
   Definition check_body (w : tcs -> node -> check_err + tcs) (st : tcs) (n : node) : check_err + tcs :=
     match n with
     | NLetValue _ name _ | NLetContent _ name _ =>
-        if bstr_eqb name s_ij then inl CKLetIj
+        if bstr_eqb name k_ij then inl CKLetIj
         else match check_block w st n with
              | inr st' => inr (push_var st' name true)
              | inl e => inl e
@@ -686,19 +686,19 @@ Inductive cerr :=
 | ECheck (tmpl : bstr) (e : check_err)                   (* template %v: ... *)
 | EGlobal (tmpl : bstr) (e : global_err).                (* template %v: global %q is undefined *)
 
-Inductive cres (A : Type) := COk (a : A) | CErr (e : cerr).
+Inductive cresult (A : Type) := COk (a : A) | CErr (e : cerr).
 Arguments COk {A} a.
 Arguments CErr {A} e.
 
 (* for _, soyfile := range b.files { parse; registry.Add } *)
-Fixpoint add_files (r : creg) (srcs : list src) : cres creg :=
+Fixpoint add_all_files (r : creg) (srcs : list src) : cresult creg :=
   match srcs with
   | [] => COk r
   | SrcParseErr name msg :: _ => CErr (EParse name msg)
   | SrcOk f :: rest =>
       match registry_add r f with
-      | inl e => CErr (EAdd (sf_name f) e)
-      | inr r' => add_files r' rest
+      | inl e => CErr (EAdd (sfile_name f) e)
+      | inr r' => add_all_files r' rest
       end
   end.
 
@@ -721,12 +721,12 @@ Record orders := {
 Section Compile.
   Variable node_string : node -> bstr.
 
-  Definition compile_gen (o : orders) (globals_calls : list gmap) (srcs : list src) : cres compiled :=
+  Definition compile_gen (o : orders) (globals_calls : list gmap) (srcs : list src) : cresult compiled :=
     let bg := bundle_of_globals (o_globals o) globals_calls in
     match bg_err bg with
     | Some (name, existing) => CErr (EGlobalsRedefined name existing)
     | None =>
-        match add_files empty_creg srcs with
+        match add_all_files empty_creg srcs with
         | CErr e => CErr e
         | COk r =>
             let ts := r_templates (cr_reg r) in
@@ -781,9 +781,9 @@ Inductive js_err :=
 (* s.funcsCalled (name -> import line), s.funcsInFile *)
 Record jst := { j_called : list (bstr * bstr); j_infile : list bstr }.
 
-Definition s_range : bstr := Eval vm_compute in b "range".
-Definition s_id : bstr := Eval vm_compute in b "id".
-Definition s_no_autoescape : bstr := Eval vm_compute in b "noAutoescape".
+Definition k_range : bstr := Eval vm_compute in b "range".
+Definition k_id : bstr := Eval vm_compute in b "id".
+Definition k_no_autoescape : bstr := Eval vm_compute in b "noAutoescape".
 
 (* which arguments the Apply function of a soyjs.Funcs entry writes (and so
    walks), in order; hand-modelled from soyjs/funcs.go (names checked against
@@ -832,7 +832,7 @@ Section JsCollect.
         match assoc_s name c13_js_directives with
         | None => inl (JUnknownDirective name)
         | Some (jsname, _) =>
-            if bstr_eqb name s_id || bstr_eqb name s_no_autoescape then js_directives st r
+            if bstr_eqb name k_id || bstr_eqb name k_no_autoescape then js_directives st r
             else js_directives {| j_called := put (j_called st) name (es6_import jsname); j_infile := j_infile st |} r
         end
     | _ :: _ => inl JUnknownNode
@@ -840,7 +840,7 @@ Section JsCollect.
   (* the arguments of the directives that are emitted (id and noAutoescape are markers only) *)
   Definition directive_args (d : node) : list node :=
     match d with
-    | NDirective _ name args => if bstr_eqb name s_id || bstr_eqb name s_no_autoescape then [] else args
+    | NDirective _ name args => if bstr_eqb name k_id || bstr_eqb name k_no_autoescape then [] else args
     | _ => []
     end.
 
@@ -874,7 +874,7 @@ Section JsCollect.
     | NFor _ _ l body ie =>
         match (match l with
                | NFunc _ fname args =>
-                   if bstr_eqb fname s_range then
+                   if bstr_eqb fname k_range then
                      (* visitForRange: limit, init, increment; the range call itself and IfEmpty are not generated *)
                      Some (match args with
                            | [lim] => [lim]
@@ -915,7 +915,7 @@ Section JsCollect.
                 end
             end
         | None =>
-            if bstr_eqb name s_is_first || bstr_eqb name s_is_last || bstr_eqb name s_index then inr st
+            if bstr_eqb name k_is_first || bstr_eqb name k_is_last || bstr_eqb name k_index then inr st
             else inl (JUnknownFunction name)
         end
     | NDataRef _ _ acc => js_seq w st (flat_map (fun a => match a with NAccExpr _ _ e => [e] | _ => [] end) acc)
@@ -934,12 +934,12 @@ Section JsCollect.
     end.
 End JsCollect.
 
-Definition file_fuel (f : sfile) : nat := fold_right (fun n acc => Nat.max (walk_fuel n) acc) 2%nat (sf_body f).
+Definition file_fuel (f : sfile) : nat := fold_right (fun n acc => Nat.max (walk_fuel n) acc) 2%nat (sfile_body f).
 
 (* soyjs.Write with Options{Formatter: ES6Formatter{}} and no message bundle:
    the bytes written before the generated code (importsBuf) *)
 Definition es6_import_block (o : orders) (f : sfile) : js_err + bstr :=
-  match js_seq (js_node (o_jsmap o) (file_fuel f)) {| j_called := []; j_infile := [] |} (sf_body f) with
+  match js_seq (js_node (o_jsmap o) (file_fuel f)) {| j_called := []; j_infile := [] |} (sfile_body f) with
   | inl e => inl e
   | inr st =>
       match j_called st with
